@@ -210,6 +210,16 @@ def r6_trap(chk):
     ok = len(st) == 1 and isinstance(st[0].value, ast.ListComp) and un_ is not None and \
         norm(st[0].value.generators[0].iter) == un_[2]
     chk.ob('C16.R6', 'genTrapType/variables-as-objects', ok, where(model.mod(ir.INTER), c.fn), '')
+    gs = shapes(model, shipped_dialects(model)['smiV1'])
+    t = {}
+    for p in gs.d.prods:
+        if p.lhs in ('VarTypes', 'Objects'):
+            t.setdefault(p.lhs, {})[len(p.rhs)] = repr(gs.terms[p]).replace("'%s'" % p.lhs, "'TAG'")
+    chk.ob('C16.R6', 'VarTypes-like-Objects', t.get('VarTypes') == t.get('Objects') and len(t.get('Objects', {})) == 2,
+           PARSER, 'VARIABLES list is built as %s, OBJECTS list as %s' % (t.get('VarTypes'), t.get('Objects')))
+    for p in gs.d.prods:
+        if p.lhs == 'VarPart' and len(p.rhs) == 4:
+            chk.ob('C16.R6', 'VarPart', repr(gs.terms[p]) == 'p3', '%s:%s' % (PARSER, p.fn.lineno), repr(gs.terms[p]))
     sym = model.cls(ir.SYMTAB, 'SymtableCodeGen')
     o, f = sym.find_method('genTrapType')
     st = [s for s in ir.record_stores(f) if s.key == ('type',)]
